@@ -6,7 +6,9 @@ pub mod c05;
 pub mod c06;
 pub mod c07;
 pub mod c09;
+pub mod c10;
 pub mod c11;
+pub mod c12;
 
 use crate::evidence::Ev;
 use crate::ledger::{self, GTx, GenCfg, Kind, Ledger};
